@@ -280,6 +280,12 @@ func (m *monitor) oneCorpus(i int, g *rng.Rand, nQueries int) {
 			req.SortByID = g.Bool()
 			if g.Chance(1, 5) {
 				req = ReqOpt{Size: g.Range(1, 3), From: g.Intn(3), SortByID: true}
+				switch g.Intn(3) {
+				case 1:
+					req.From, req.After = 0, docID(g.Intn(12))
+				case 2:
+					req.From, req.Before = 0, docID(g.Intn(12))
+				}
 				r.Count("paged_requests", 1)
 			}
 			c := &Case{Schema: s, History: h, Query: q, Mode: mode, Req: req}
